@@ -69,7 +69,12 @@ func runC14(c *Ctx) {
 		j := jobs[ji]
 		for hi := j.lo; hi < j.hi; hi++ {
 			// a fresh server per history: the uploader's per-bucket state must start empty
-			s := mustServer(drv.Opts{Kind: j.kind})
+			// every third history runs on a clock that steps backwards: the order of a key's uploads
+			// is the order of their initiation, whatever the timestamps say
+			s := mustServer(drv.Opts{Kind: j.kind, BackwardsClock: hi%3 == 2})
+			if hi%3 == 2 {
+				r.Count("histories_on_a_backwards_clock", 1)
+			}
 			bucket := "mpl-bucket"
 			if cr := s.CreateBucket(bucket); cr.Status != 200 {
 				panic("harness: create bucket: " + cr.String())
